@@ -15,6 +15,8 @@ import SpecKitV.Model.Analyzer
 import SpecKitV.Gen.CoreKernels
 import SpecKitV.Gen.CudaKernels
 import SpecKitV.Gen.Attrs
+import SpecKitV.Gen.Sched
+import SpecKitV.Gen.Utils
 
 namespace Drv
 
@@ -400,6 +402,26 @@ def opKaiser : M String := do
   let beta ← flt
   return joinF ((List.range L).map (fun n => Model.kaiserWin L beta n))
 
+/-- generated scheduler walks: `genwalk <ltf|new> cfg` → `n | f… | r… | b… | L… | K…` -/
+def opGenWalk : M String := do
+  let which ← tok
+  let c ← cfg
+  let fuel := c.N + 8
+  let r := if which == "ltf" then
+      Gen.ltf_plan_walk (c.N : Int) c.fs c.olap c.bmin (c.Lmin : Int) (c.Jdes : Int) (c.Kdes : Int) fuel
+    else Gen.new_ltf_plan_walk (c.N : Int) c.fs c.olap c.bmin (c.Lmin : Int) (c.Jdes : Int) (c.Kdes : Int) fuel
+  let (f, rr, b, L, K) := r
+  return s!"{f.length} | " ++ joinF f ++ " | " ++ joinF rr ++ " | " ++ joinF b ++ " | " ++ " ".intercalate (L.map toString) ++ " | " ++ " ".intercalate (K.map toString)
+
+def opGenUtil : M String := do
+  let which ← tok
+  let v ← flt
+  match which with
+  | "round_half_up" => return toString (Gen.round_half_up v)
+  | "kaiser_alpha" => return fmt (Gen.kaiser_alpha v)
+  | "kaiser_rov" => return fmt (Gen.kaiser_rov v)
+  | _ => throw s!"genutil:{which}"
+
 def opSingleBin : M String := do
   let N ← nat
   let L ← nat
@@ -432,6 +454,8 @@ def dispatch : M String := do
   | "reven" => opReven
   | "kaiser" => opKaiser
   | "singlebin" => opSingleBin
+  | "genwalk" => opGenWalk
+  | "genutil" => opGenUtil
   | "ping" => pure "pong"
   | _ => throw s!"op:{op}"
 
